@@ -261,3 +261,50 @@ def _impl_post(c):
 IMPLEMENTEDBY_C = CProc('implementedBy', [('module', OBJ), ('cls', OBJ)], result=OBJ, requires=_impl_pre, ensures=_impl_post,
                         api=API, globals=GLOBALS)
 PROCS = [GOS, PROVIDEDBY, IMPLEMENTEDBY_C]
+
+
+# ---------------------------------------------------------------------- the two descriptors
+FIELDS.update({'_cls': OBJ, '_implements': OBJ})
+MODULE = z3.Const('zic_module', Obj)
+AXIOMS.append(MODULE != C_NULL)
+
+
+def _osd_view(c):
+    return pyview(c, self=c.a.self, inst=z3.If(c.a.inst == C_NULL, NONE, c.a.inst), cls=c.a.cls)
+
+
+def _osd_pre(c):
+    return [('arguments-are-objects', z3.And(c.a.self != C_NULL, c.a.cls != C_NULL)), ('an-instance-is-never-None-itself', c.a.inst != NONE),
+            ('a-present-declaration-is-an-object', z3.Implies(z3.And(c.a.inst != C_NULL, has_provides(c.a.inst)), c.h('__provides__')[c.a.inst] != C_NULL))]
+
+
+def _osd_post(c):
+    v = _osd_view(c)
+    inst = c.a.inst
+    return common_post(c) + [(lbl, z3.Implies(c.exc == C_NULL, f)) for lbl, f in P._osd_post(v)] + [
+        ('an-error-other-than-AttributeError-while-fetching-__provides__-propagates', z3.Implies(
+            z3.And(inst != C_NULL, z3.Not(has_provides(inst)), other(inst, 1)), z3.And(c.res == C_NULL, c.exc != C_NULL))),
+        ('no-exception-when-the-instance-carries-a-declaration', z3.Implies(z3.And(inst != C_NULL, has_provides(inst)), c.exc == C_NULL))]
+
+
+OSD = CProc('OSD_descr_get', [('self', OBJ), ('inst', OBJ), ('cls', OBJ)], result=OBJ, requires=_osd_pre, ensures=_osd_post,
+            api=dict(QUERY_API, getObjectSpecification=_gos_oracle, _get_module=lambda ex, st, vs: [(st, vobj(MODULE))]), globals=GLOBALS)
+
+
+def _cpb_post(c):
+    s, inst, cls = c.a.self, c.a.inst, c.a.cls
+    owner = c.h0('_cls')[s]
+    impl_ = c.h0('_implements')[s]
+    attr_error = z3.And(c.res == C_NULL, c.exc == cfun.EXC_ATTRIBUTE_ERROR)
+    return common_post(c) + [
+        ('an-unset-class-slot-is-an-AttributeError', z3.Implies(owner == C_NULL, attr_error)),
+        ('another-class-does-not-see-the-declaration', z3.Implies(z3.And(owner != C_NULL, cls != owner), attr_error)),
+        ('the-class-itself-sees-its-own-declaration', z3.Implies(z3.And(owner != C_NULL, cls == owner, inst == C_NULL), z3.And(c.res == s, c.exc == C_NULL))),
+        ('its-instances-see-the-class-specification-not-the-class-declaration', z3.Implies(
+            z3.And(owner != C_NULL, cls == owner, inst != C_NULL, impl_ != C_NULL), z3.And(c.res == impl_, c.exc == C_NULL))),
+        ('an-unset-specification-slot-is-an-AttributeError', z3.Implies(z3.And(owner != C_NULL, cls == owner, inst != C_NULL, impl_ == C_NULL), attr_error))]
+
+
+CPB = CProc('CPB_descr_get', [('self', OBJ), ('inst', OBJ), ('cls', OBJ)], result=OBJ,
+            requires=lambda c: [('arguments-are-objects', z3.And(c.a.self != C_NULL, c.a.cls != C_NULL))], ensures=_cpb_post, api=API, globals=GLOBALS)
+PROCS += [OSD, CPB]
